@@ -237,7 +237,26 @@ class Oracle:
 
     def __init__(self, eng, token_level_suffix=False):
         self.eng = eng
-        self.t = eng.table
+        # the table as the operator LIST states it (group = 1 + number of separators before the record; the
+        # record type gives the role) - deliberately not the output of _build_operator_table
+        self.t = {}
+        g = 1
+        for r in eng.records:
+            if len(r) < 2:
+                g += 1
+                continue
+            if r[1] == OT.NAME_VALUE_PAIR:
+                continue
+            up, bp, aliases = self.t.get(r[0], (0, 0, ()))
+            if r[1] == OT.PREFIX_UNARY:
+                up = g
+            elif r[1] == OT.SUFFIX_UNARY:
+                up = -g
+            elif r[1] == OT.BINARY_LEFT_ASSOCIATIVE:
+                bp = g
+            elif r[1] == OT.BINARY_RIGHT_ASSOCIATIVE:
+                bp = -g
+            self.t[r[0]] = (up, bp, aliases + ((r[2] if len(r) > 2 else None),))
         # False: the statement (a suffix operator binds as its own group says).  True: what one ply token can
         # do - a symbol that is also binary has ONE shift precedence, that of its binary group.
         self.token_level_suffix = token_level_suffix
@@ -317,8 +336,8 @@ class Oracle:
             sym = e[1]
             if sym not in self.t or not self.t[sym][1]:
                 return 'binary operator %r is not in the table' % sym
-            if e[2] != self.t[sym][3]:
-                return 'operator %r carries alias %r, table says %r' % (sym, e[2], self.t[sym][3])
+            if e[2] not in self.t[sym][2]:
+                return 'operator %r carries alias %r, its records say %r' % (sym, e[2], self.t[sym][2])
             g = self.bin_group(sym)
             return (self.value(e[3]) or self.value(e[4]) or
                     self.check_left(e[3], g, 'binary %r' % sym) or self.check_right(e[4], g, 'binary %r' % sym))
@@ -326,8 +345,8 @@ class Oracle:
             sym = e[1]
             if sym not in self.t or not self.t[sym][0]:
                 return 'unary operator %r is not in the table' % sym
-            if e[2] != self.t[sym][3]:
-                return 'operator %r carries alias %r, table says %r' % (sym, e[2], self.t[sym][3])
+            if e[2] not in self.t[sym][2]:
+                return 'operator %r carries alias %r, its records say %r' % (sym, e[2], self.t[sym][2])
             g = self.un_group(sym)
             if self.is_prefix(sym):
                 return self.value(e[3]) or self.check_right(e[3], g, 'prefix %r' % sym)
@@ -417,6 +436,126 @@ class Oracle:
 
 def lit(c):
     return ('lit', c, 'null')
+
+
+LEAVES = [(['ctx', {'text': cps('$a')}], '$a'), (['const', 'number', {'int': '1'}], '1'),
+          (['const', 'quoted', {'text': cps('s')}], "'s'"), (['kw', {'text': cps('b')}], 'b'),
+          (['ctx', {'text': cps('$')}], '$'), (['const', 'true', None], 'true'),
+          (['const', 'number', {'flt': cps('2.5')}], '2.5'), (['const', 'null', None], 'null'),
+          (['kw', {'text': cps('c')}], 'c')]
+LEAF_TEXT = {json.dumps(t): x for t, x in LEAVES}
+
+
+def strip_alias(e):
+    if isinstance(e, list):
+        if e and e[0] in ('bin', 'un'):
+            return [e[0], e[1], None] + [strip_alias(x) for x in e[3:]]
+        if e and e[0] in ('const', 'kw', 'ctx'):
+            return e
+        return [strip_alias(x) if isinstance(x, list) else x for x in e]
+    return e
+
+
+def render(orc, e, kw='=>'):
+    """text of a tree (tokens separated by blanks)"""
+    if isinstance(e, str):
+        return ''
+    k = e[0]
+    if k in ('const', 'kw', 'ctx'):
+        return LEAF_TEXT[json.dumps(e)]
+    r = lambda x: render(orc, x, kw)
+
+    def args(items):
+        return ' , '.join(r(a) for a in items)
+    if k == 'wrap':
+        return '( ' + r(e[1]) + ' )'
+    if k == 'mr':
+        return r(e[1]) + ' ' + kw + ' ' + r(e[2])
+    if k == 'bin':
+        return r(e[3]) + ' ' + e[1] + ' ' + r(e[4])
+    if k == 'un':
+        return (e[1] + ' ' + r(e[3])) if orc.is_prefix(e[1]) else (r(e[3]) + ' ' + e[1])
+    if k == 'index':
+        return r(e[1]) + ' [ ' + args(e[2:]) + ' ]'
+    if k == 'call':
+        return r(e[1]) + ' ( ' + args(e[2:]) + ' )'
+    if k == 'list':
+        return '[ ' + args(e[1:]) + ' ]'
+    if k == 'map':
+        return '{ ' + args(e[1:]) + ' }'
+    if k == 'func':
+        return ''.join(chr(c) for c in e[1]['text']) + '( ' + args(e[2:]) + ' )'
+    raise TypeError(k)
+
+
+def rand_tree(rng, orc, depth, delegates, kw):
+    """a random tree that satisfies the oracle's WF by construction: operands that would be grouped against the
+    table are put in parentheses (and some others too)"""
+    t = orc.t
+    syms = [s for s in t if s not in ('[]', '{}')]
+    bins = [s for s in syms if t[s][1]]
+    pres = [s for s in syms if t[s][0] > 0]
+    sufs = [s for s in syms if t[s][0] < 0]
+
+    def paren(x, bad):
+        return ['wrap', x] if bad or rng.random() < 0.08 else x
+
+    def args(d):
+        n = rng.randrange(0, 4)
+        items = []
+        for _ in range(n):
+            q = rng.random()
+            if q < 0.15:
+                items.append('NO_VALUE')
+            elif q < 0.35 and kw:
+                items.append(['mr', g(d - 1), g(d - 1)])
+            else:
+                items.append(g(d - 1))
+        # make the slot list legal: positional part must end with a value (or a value and one empty slot before
+        # named ones), named ones last
+        pos = [a for a in items if not (isinstance(a, list) and a[0] == 'mr')]
+        named = [a for a in items if isinstance(a, list) and a[0] == 'mr']
+        while pos and pos[-1] == 'NO_VALUE':
+            pos.pop()
+        if pos and named and rng.random() < 0.2:
+            pos.append('NO_VALUE')
+        if pos and all(a == 'NO_VALUE' for a in pos):
+            pos = []
+        return pos + named
+
+    def g(d):
+        r = rng.random()
+        if d <= 0 or r < 0.2:
+            return rng.choice(LEAVES)[0]
+        if r < 0.55 and bins:
+            sym = rng.choice(bins)
+            grp = abs(t[sym][1])
+            l, rr = g(d - 1), g(d - 1)
+            l = paren(l, orc.check_left(l, grp, '') is not None)
+            rr = paren(rr, orc.check_right(rr, grp, '') is not None)
+            return ['bin', sym, None, l, rr]
+        if r < 0.67 and pres:
+            sym = rng.choice(pres)
+            x = g(d - 1)
+            return ['un', sym, None, paren(x, orc.check_right(x, abs(t[sym][0]), '') is not None)]
+        if r < 0.73 and sufs:
+            sym = rng.choice(sufs)
+            x = g(d - 1)
+            return ['un', sym, None, paren(x, orc.check_left(x, orc.suffix_group(sym), '') is not None)]
+        if r < 0.78:
+            return ['wrap', g(d - 1)]
+        if r < 0.84 and '[]' in t:
+            x = g(d - 1)
+            return ['index', paren(x, orc.check_left(x, abs(t['[]'][1]), '') is not None)] + args(d)
+        if r < 0.88 and '[]' in t:
+            return ['list'] + args(d)
+        if r < 0.91 and '{}' in t:
+            return ['map'] + args(d)
+        if r < 0.96 or not delegates:
+            return ['func', {'text': cps(rng.choice(['f', 'g', 'len']))}] + args(d)
+        x = g(d - 1)
+        return ['call', paren(x, orc.check_left(x, CALL_LEVEL, '') is not None)] + args(d)
+    return g(depth)
 
 
 # ---------------------------------------------------------------- generators
@@ -618,7 +757,20 @@ class Batch:
         self.pending = []      # (text, toks_json, real)
         self.seen = set()
 
-    def add(self, text, family):
+    def add_random_tree(self, rng, depth, family):
+        if self.oracle is None or self.eng.ambiguous:
+            return
+        try:
+            tree = rand_tree(rng, self.oracle, depth, self.eng.delegates, self.eng.cap['table'].name_value_op)
+        except NotApplicable:
+            return
+        self.add_tree(tree, family)
+
+    def add_tree(self, tree, family):
+        """a tree that satisfies WF by construction: its spelling must parse to exactly that tree"""
+        self.add(render(self.oracle, tree, self.eng.cap['table'].name_value_op or '=>'), family, expect=tree)
+
+    def add(self, text, family, expect=None):
         if text in self.seen:
             return
         self.seen.add(text)
@@ -635,7 +787,10 @@ class Batch:
         self.res.case(common.digest([eng.label(), text]), nontrivial=len(tj) >= 3,
                       sample=dict(engine=eng.label(), text=text, outcome=real[0]) if self.res.evaluations % 5000 == 7 else None)
         # --- oracle on the real code alone
-        if real[0] == 'foreign' or real[0] == 'lexical':
+        if expect is not None and (real[0] != 'ok' or strip_alias(real[1]) != strip_alias(expect)):
+            self.fail('oracle', 'dictated-tree', text, 'the table dictates %s, the parser gave %s' % (
+                json.dumps(strip_alias(expect)), json.dumps(real[1] if real[0] == 'ok' else list(real))), tree=expect)
+        elif real[0] == 'foreign' or real[0] == 'lexical':
             self.fail('oracle', 'not-a-grammar-error', text, 'parsing raised %s' % (real[1],))
         elif real[0] == 'grammar':
             pos = real[1]
@@ -662,13 +817,14 @@ class Batch:
         if len(self.pending) >= 4000:
             self.flush()
 
-    def fail(self, kind, key, text, what):
+    def fail(self, kind, key, text, what, tree=None):
         if key == KNOWN_SUFFIX_KEY:
             if getattr(self.res, 'suffix_binary_reported', False):
                 return
             self.res.suffix_binary_reported = True
         self.res.fail(kind, key, '[%s] %r: %s' % (self.eng.label(), text, what),
-                      dict(kind=self.eng.kind, delegates=self.eng.delegates, inserts=self.eng.inserts, text=text))
+                      dict(kind=self.eng.kind, delegates=self.eng.delegates, inserts=self.eng.inserts, text=text,
+                           tree=tree))
 
     def flush(self):
         if not self.pending or self.drv is None:
@@ -695,8 +851,56 @@ class Batch:
         self.pending = []
 
 
+def split_groups(records):
+    groups = [[]]
+    for r in records:
+        if len(r) < 2:
+            groups.append([])
+        else:
+            groups[-1].append(tuple(r))
+    return groups
+
+
+def insert_contract(before, ins, after):
+    """Transcription of C02.insert_same_group / insert_new_group / insert_front on the real lists: where the
+    new record must be, everything else unchanged.  None if fine or not applicable, else a description."""
+    gb = split_groups(before)
+    if any(not g for g in gb):
+        return None                      # empty groups: the theorems are stated for tidy lists
+    new = (ins['sym'], ins['ty'], ins['alias'])
+    if ins['ex'] is None:
+        want = [[new]] + gb if ins['cg'] else [[new] + gb[0]] + gb[1:]
+    else:
+        types = BIN_TYPES if ins['bin'] else UN_TYPES
+        gi = next((i for i, g in enumerate(gb) for r in g if r[0] == ins['ex'] and r[1] in types), None)
+        if gi is None:
+            return None if after is None else 'existing operator %r not in the list but no ValueError' % ins['ex']
+        gi = next(i for i, g in enumerate(gb) if any(r[0] == ins['ex'] and r[1] in types for r in g))
+        want = gb[:gi + 1] + [[new]] + gb[gi + 1:] if ins['cg'] else gb[:gi] + [gb[gi] + [new]] + gb[gi + 1:]
+    if after is None:
+        return 'ValueError although %r is in the list' % ins['ex']
+    got = split_groups(after)
+    if [[tuple(r) for r in g] for g in got] != [[tuple(r) for r in g] for g in want]:
+        return 'groups after the call %s, expected %s' % (got, want)
+    return None
+
+
+def check_inserts(eng, res):
+    """oracle on the real insert_operator alone"""
+    cur = eng.base
+    for k, (ins, after) in enumerate(zip(eng.inserts, eng.steps)):
+        why = insert_contract([tuple(r) for r in cur], ins, after)
+        if why:
+            res.fail('oracle', 'insert-operator', '[%s] insert_operator call #%d %r: %s' % (eng.label(), k, ins, why),
+                     dict(kind=eng.kind, delegates=eng.delegates, inserts=eng.inserts[:k + 1], text=None))
+            return
+        if after is not None:
+            cur = after
+
+
 def check_table(eng, drv, res):
     """insert_operator / _build_operator_table / _generate_operator_funcs: model vs live objects"""
+    check_inserts(eng, res)
     if drv is None:
         return
     req = dict(p='C02', op='table')
@@ -759,6 +963,51 @@ def shrink(eng, drv, text, failing):
     return ' '.join(ws)
 
 
+def subtrees(e):
+    """smaller value trees to try instead of e: its value children, and e with one child replaced by a leaf"""
+    if not isinstance(e, list) or e[0] in ('const', 'kw', 'ctx'):
+        return
+    start = {'bin': 3, 'un': 3, 'wrap': 1, 'index': 1, 'call': 1, 'list': 1, 'map': 1, 'func': 2, 'mr': 1}[e[0]]
+    for i in range(start, len(e)):
+        c = e[i]
+        if isinstance(c, list) and c[0] != 'mr':
+            yield c
+        elif isinstance(c, list):
+            yield c[1]
+            yield c[2]
+    for i in range(start, len(e)):
+        c = e[i]
+        if isinstance(c, list) and c[0] not in ('const', 'kw', 'ctx'):
+            for sub in subtrees(c):
+                if (c[0] == 'mr') == (isinstance(sub, list) and sub[0] == 'mr'):
+                    yield e[:i] + [sub] + e[i + 1:]
+            if c[0] != 'mr':
+                yield e[:i] + [LEAVES[1][0]] + e[i + 1:]
+    if e[0] in ('index', 'call', 'list', 'map', 'func') and len(e) > start + (1 if e[0] in ('index', 'call') else 0):
+        yield e[:-1]
+
+
+def shrink_tree(eng, drv, tree):
+    def failing(t):
+        r = common.Result()
+        b = Batch(eng, drv, r, {})
+        if b.oracle is None or b.oracle.value(t) is not None:
+            return False
+        b.add_tree(t, 'shrink')
+        return any(f.key == 'dictated-tree' for f in r.failures)
+    progress = True
+    while progress:
+        progress = False
+        for cand in subtrees(tree):
+            try:
+                if failing(cand):
+                    tree, progress = cand, True
+                    break
+            except Exception:       # noqa
+                continue
+    return tree
+
+
 def first_failure(eng, drv, text):
     """(kind, key) of the failure this text provokes, or None"""
     r = common.Result()
@@ -787,12 +1036,22 @@ def run(env, res):
         check_table(eng, drv, res)
         if rp.get('text') is not None:
             b = Batch(eng, drv, res, hist)
-            b.add(rp['text'], 'replay')
+            if rp.get('tree') is not None:
+                b.add_tree(rp['tree'], 'replay')
+            else:
+                b.add(rp['text'], 'replay')
             b.flush()
         res.extra['histogram'] = hist
         return res
 
     engines = [Eng('default', False), Eng('default', True), Eng('legacy', False), Eng('legacy', True)]
+    # the legacy factory's own insert_operator('or', True, '=>', BINARY_LEFT_ASSOCIATIVE, True)
+    why = insert_contract([tuple(r) for r in factory.YaqlFactory(keyword_operator=None).operators],
+                          dict(ex='or', bin=True, sym='=>', ty=OT.BINARY_LEFT_ASSOCIATIVE, cg=True, alias=None),
+                          engines[2].base)
+    if why:
+        res.fail('oracle', 'insert-operator', "[legacy] YaqlFactory.__init__: insert_operator('or', True, '=>', "
+                 "BINARY_LEFT_ASSOCIATIVE, True): %s" % why, dict(kind='legacy', delegates=False, inserts=[], text=None))
     for e in engines:
         check_table(e, drv, res)
 
@@ -826,6 +1085,8 @@ def run(env, res):
                 b.add(mutate(rng, e, text), 'mutant')
         for _ in range(n_rand):
             b.add(soup(rng, e, rng.choice([3, 5, 8, 14])), 'soup')
+        for _ in range(n_rand):
+            b.add_random_tree(rng, rng.choice([2, 3, 3, 4]), 'dictated_trees')
         finish_batch(b)
 
     # 3. custom tables
@@ -861,6 +1122,8 @@ def run(env, res):
             if q < 0.85 and rng.random() < 0.25:
                 text = mutate(rng, e, text)
             b.add(text, 'custom')
+            if j % 2 == 0:
+                b.add_random_tree(rng, 3, 'custom_dictated_trees')
         # every pair (new operator, any operator) in flat position
         syms = [s for s in e.table if s not in ('[]', '{}')]
         for ns in set(new_syms):
@@ -873,6 +1136,37 @@ def run(env, res):
         if len([f for f in res.failures if f.key != KNOWN_SUFFIX_KEY]) >= 8:
             break
     hist['custom_tables_built'] = built
+
+    # 3b. fixed probes for group shapes the random tables may miss in a short run
+    probes = [
+        # a prefix operator sharing a group with right-associative binaries (the r-before-l split of the tuple)
+        ('default', False, [dict(ex='->', bin=True, sym='!', ty=OT.PREFIX_UNARY, cg=False, alias='bang')]),
+        # a prefix operator sharing a group with left-associative binaries
+        ('default', False, [dict(ex='*', bin=True, sym='~', ty=OT.PREFIX_UNARY, cg=False, alias=None)]),
+        # suffix operators: tightest group, a middle group of their own, loosest group
+        ('default', True, [dict(ex=None, bin=True, sym='!', ty=OT.SUFFIX_UNARY, cg=True, alias=None),
+                           dict(ex='+', bin=True, sym='?', ty=OT.SUFFIX_UNARY, cg=True, alias='q'),
+                           dict(ex='->', bin=True, sym='!!', ty=OT.SUFFIX_UNARY, cg=True, alias=None)]),
+        # new groups at the front, in the middle, at the end; word operator; prefix of an existing symbol
+        ('legacy', False, [dict(ex=None, bin=True, sym='**', ty=OT.BINARY_RIGHT_ASSOCIATIVE, cg=True, alias='pow'),
+                           dict(ex='and', bin=True, sym='xor', ty=OT.BINARY_LEFT_ASSOCIATIVE, cg=True, alias=None),
+                           dict(ex='=>', bin=True, sym='=>>', ty=OT.BINARY_RIGHT_ASSOCIATIVE, cg=True, alias=None),
+                           dict(ex='not', bin=False, sym='<-', ty=OT.PREFIX_UNARY, cg=False, alias=None)]),
+    ]
+    for kind, delegates, ins in probes:
+        e = Eng(kind, delegates, ins)
+        check_table(e, drv, res)
+        b = Batch(e, drv, res, hist)
+        syms = [s_ for s_ in e.table if s_ not in ('[]', '{}')]
+        for ns in set(i['sym'] for i in ins):
+            for other in syms:
+                for text in pair_texts(e, ns, other):
+                    b.add(text, 'probe_pairs')
+        for _ in range(250):
+            b.add(rand_flat(rng, e, 6), 'probe_flat')
+            b.add(rand_expr(rng, e, 3), 'probe_forms')
+            b.add_random_tree(rng, 3, 'probe_dictated_trees')
+        finish_batch(b)
 
     # 4. a fixed probe: a suffix operator that shares its symbol with a binary operator
     probe = Eng('default', False, [dict(ex='->', bin=True, sym='*', ty=OT.SUFFIX_UNARY, cg=True, alias=None)])
@@ -895,10 +1189,13 @@ def run(env, res):
         try:
             e = Eng(rp['kind'], rp['delegates'], rp['inserts'])
             want = (f.kind, f.key)
-            small = shrink(e, drv, rp['text'], lambda t: first_failure(e, drv, t) == want)
             r2 = common.Result()
             b = Batch(e, drv, r2, {})
-            b.add(small, 'shrink')
+            if rp.get('tree') is not None:
+                b.add_tree(shrink_tree(e, drv, rp['tree']), 'shrink')
+            else:
+                small = shrink(e, drv, rp['text'], lambda t: first_failure(e, drv, t) == want)
+                b.add(small, 'shrink')
             b.flush()
             shrunk.append(r2.failures[0] if r2.failures else f)
         except Exception:       # noqa
